@@ -28,7 +28,7 @@ from harness.common import clist
 PROPERTY = "C07"
 LEVEL = "proof"
 
-REQ = ["OV.Graph.Syntax", "OV.Graph.Wf", "OV.Rewrite.Apply"]
+REQ = ["OV.Graph.Syntax", "OV.Graph.Wf", "OV.Rewrite.Apply", "OV.Rewrite.Order"]
 
 
 # ----------------------------------------------------------------------------- running models
@@ -118,8 +118,20 @@ def _feeds(model, rng, k):
 
 # ----------------------------------------------------------------------------- proto-level node signatures
 
+def _attr_bytes(a):
+    if a.type == a.TENSOR and a.t.name:
+        # the name of a tensor held by an attribute refers to nothing; onnx_ir's serializer overwrites it when the tensor
+        # OBJECT is shared with an initializer (op.initializer(c.const_value, name=...) for the output c of a Constant node)
+        import onnx
+        b = onnx.AttributeProto()
+        b.CopyFrom(a)
+        b.t.ClearField("name")
+        a = b
+    return a.SerializeToString(deterministic=True)
+
+
 def _node_sig(n):
-    attrs = tuple(sorted((a.name, a.SerializeToString(deterministic=True)) for a in n.attribute
+    attrs = tuple(sorted((a.name, _attr_bytes(a)) for a in n.attribute
                          if a.type not in (a.GRAPH, a.GRAPHS)))
     meta = tuple(sorted((p.key, p.value) for p in n.metadata_props))
     return (n.domain if n.domain != "ai.onnx" else "", n.op_type, tuple(n.input), tuple(n.output), attrs, meta)
@@ -154,6 +166,43 @@ def _all_function_nodes(f):
         for a in n.attribute:
             if a.type == a.GRAPH:
                 yield from _all_nodes(a.g)
+
+
+def _tensor_key(t):
+    from onnx import numpy_helper
+    a = numpy_helper.to_array(t)
+    return (str(a.dtype), tuple(a.shape), a.tobytes())
+
+
+def initializer_reads(model):
+    """(container, node signature incl. input/output names) -> sorted list of tuples: per input the contents (dtype, shape,
+    bytes) of the initializer the name resolves to under ONNX scoping (None: not an initializer)."""
+    out = collections.defaultdict(list)
+
+    def walk(g, scope, where):
+        here = dict(scope)
+        for t in g.initializer:
+            here[t.name] = _tensor_key(t)
+        inits = {t.name for t in g.initializer}
+        for d in [i.name for i in g.input if i.name not in inits] + [o for n in g.node for o in n.output]:
+            here.pop(d, None)
+        for n in g.node:
+            out[(where, _node_sig(n))].append(tuple(here.get(i) for i in n.input))
+            for a in n.attribute:
+                if a.type == a.GRAPH:
+                    walk(a.g, here, where)
+                elif a.type == a.GRAPHS:
+                    for sg in a.graphs:
+                        walk(sg, here, where)
+    walk(model.graph, {}, "main")
+    for f in model.functions:
+        where = f"{f.domain}:{f.name}:{f.overload}"
+        for n in f.node:
+            out[(where, _node_sig(n))].append(tuple(None for _ in n.input))
+            for a in n.attribute:
+                if a.type == a.GRAPH:
+                    walk(a.g, {}, where)
+    return out
 
 
 def _used_names(model):
@@ -260,6 +309,20 @@ def bad_extracted_functions(model):
     return out
 
 
+def host_functions_missing_nested_imports(model):
+    """Model-local host functions one of whose nested graphs (If/Loop bodies) uses a domain the function does not import."""
+    out = []
+    for f in model.functions:
+        if f.domain != G.DOM_HOST:
+            continue
+        fi = {o.domain for o in f.opset_import}
+        nested = {m.domain for n in f.node for a in n.attribute if a.type == a.GRAPH for m in _all_nodes(a.g)}
+        if not nested <= fi:
+            out.append((f.name, sorted(nested - fi)))
+    return out
+
+
+KEY_FN_SUB_IMPORTS = "C07:new-domain:match-inside-function-subgraph:function-opset-imports"
 KEY_SHADOW = "C07:fresh-name-clash:subgraph-value-shadows-enclosing-graph-value"
 KEY_FN_IMPORTS = "C07:as_function:match-inside-subgraph:function-opset-imports"
 
@@ -422,6 +485,19 @@ def eval_host(ctx, label, host, families, rng, stream="gen", want_ref=True, chec
         known_invalid = True
         res.violations.append((KEY_FN_IMPORTS, f"function(s) {bad_fns[:3]} extracted from a match inside an If/Loop body carry the "
                                                "subgraph's (empty or defaulted) opset imports instead of the model's; onnx.checker rejects the model"))
+    fn_sub = host_functions_missing_nested_imports(new) if not host_functions_missing_nested_imports(model) else []
+    if fn_sub and any(G.FAMILIES[f].get("new_domain") or G.FAMILIES[f].get("as_function") for f in families):
+        # the remaining oracles run on the model with exactly the missing imports added (so this finding masks nothing else)
+        new = copy.deepcopy(new)
+        mimp = {o.domain: o.version for o in new.opset_import}
+        for f in new.functions:
+            for fname, doms in fn_sub:
+                if f.name == fname and f.domain == G.DOM_HOST:
+                    for d in doms:
+                        f.opset_import.add(domain=d, version=mimp.get(d, 1))
+        res.violations.append((KEY_FN_SUB_IMPORTS, f"function(s) {fn_sub[:3]}: a replacement in a domain the function does not import was "
+                                                   "inserted in an If/Loop body of the function; the import went to the subgraph's own "
+                                                   "(unserialized) opset_imports and to the main graph, not to the function; onnx.checker rejects the model"))
     # -- validity
     try:
         # strict type inference stops at a contrib op the onnx package has no schema for
@@ -489,6 +565,19 @@ def eval_host(ctx, label, host, families, rng, stream="gen", want_ref=True, chec
         missing.append((s[1], list(s[2]), list(s[3])))
     if missing:
         bad("unmatched-node-changed", f"nodes outside every match were removed or altered: {missing[:4]}")
+    # -- frame, initializer identity: the tensor an unmatched node reads is bit-identical before and after
+    reads0, reads1 = initializer_reads(model), initializer_reads(new)
+    for k, lst0 in reads0.items():
+        lst1 = reads1.get(k)
+        if lst1 is None or not any(x is not None for t in lst0 for x in t):
+            continue                                   # node gone (matched / dead constant) or reads no initializer
+        c0, c1 = collections.Counter(lst0), collections.Counter(lst1)
+        if c1 - c0 and c0 - c1:
+            sg = k[1]
+            bad("unmatched-node-reads-different-initializer",
+                f"node {sg[1]}({', '.join(sg[2])}) -> {list(sg[3])} in {k[0]} is unchanged by name but an input that resolved to an "
+                "initializer now resolves to different contents or to no initializer")
+            break
     extra = sum(after.values()) - sum((before & after).values())
     total_new = sum(r["new_nodes"] for r in tracer.sweeps)
     if extra > total_new:
@@ -537,7 +626,7 @@ def eval_host(ctx, label, host, families, rng, stream="gen", want_ref=True, chec
     for k, r in enumerate(tracer.sweeps):
         if r["unmodelled"]:
             continue
-        res.coq_cases.append((f"{label}/{r['kind']}{k}", r["apps"], r["g0"], r["gfinal"]))
+        res.coq_cases.append((f"{label}/{r['kind']}{k}", r["apps"], r["g0"], r["gfinal"], r["ext"]))
         for d in check_cursor(r):
             res.ties.append(("iteration", f"{label}: {d}"))
     if not known_invalid:
@@ -553,27 +642,30 @@ def reference_instances(host, families):
     out = []
     for fam in families:
         spec = G.FAMILIES[fam]
+        top_consts = {}
         for level_key, (desc, g, top) in enumerate(G.all_levels(host)):
             in_function = desc.startswith("function:")
             consts = {}
             if top:
+                # basic_constant_propagation gives a const_value to the initializers and to the outputs of the Constant
+                # nodes of the TOP level of the main graph / of a function (not to Constant nodes inside If/Loop bodies)
                 for k, a in g.inits.items():
                     consts[k] = float(a)
                 for n in g.nodes:
                     if n.op == "Constant":
                         consts[n.outs[0]] = float(n.attrs["value"])
-            elif not in_function:
-                # a nested graph sees the initializers of the main graph (constant propagation covers top-level nodes only)
-                for k, a in host.main.inits.items():
-                    consts[k] = float(a)
+                top_consts = consts
+            else:
+                # a nested graph sees the constants of the top level of its container (the same Value objects)
+                consts = dict(top_consts)
 
             def const_ok(val, c, consts=consts):
                 return val in consts and consts[val] == c
             for i in G.find_instances(g, fam, const_ok):
                 keep = spec.get("keep", False)
                 claim = (i["removable"] or keep) and not i["var_is_intermediate"]
-                if spec["tr"] == "add0_init" and in_function:
-                    claim = False                       # by design: rules adding initializers are skipped in functions
+                if spec.get("new_init") and in_function and "/" not in desc:
+                    claim = False                       # by design: rules adding initializers are skipped at the top level of a function
                 where = "function" if in_function else ("main" if desc == "main" else "nested")
                 out.append(dict(family=fam, level=desc, level_key=level_key, where=where, claim=claim, **i))
     return out
@@ -587,29 +679,36 @@ def coq_replay(ctx, cases, shard=40):
     for s in range(0, len(cases), shard):
         chunk = cases[s:s + shard]
         lines = []
-        for i, (_label, apps, g0, gf) in enumerate(chunk):
+        for i, (_label, apps, g0, gf, ext) in enumerate(chunk):
             lines.append(f"Definition g0_{i} : graph := {g0}.")
             lines.append(f"Definition gf_{i} : graph := {gf}.")
             lines.append(f"Definition ap_{i} : list (path * app * list vname) := {clist(apps)}.")
+            lines.append(f"Definition ex_{i} : list vname := {clist(ext, common.cstr)}.")
         lst = clist([f"({i}, check_host ap_{i} g0_{i} gf_{i})" for i in range(len(chunk))])
         lines.append(f"Definition results : list (nat * (nat * nat * nat)) := {lst}.")
         lines.append("Eval vm_compute in (filter (fun r => negb (Nat.eqb (fst (fst (snd r))) 0)) results).")
         lines.append("Eval vm_compute in (fold_right (fun r s => snd (snd r) + s) 0 results).")
+        # order part: the container was ordered, every application satisfies order_okb where it is applied (hypotheses of
+        # C07_pass_keeps_order) and the observed final graph is ordered
+        lst = clist([f"({i}, check_order ex_{i} ap_{i} g0_{i} && topo_graph ex_{i} gf_{i})" for i in range(len(chunk))])
+        lines.append(f"Eval vm_compute in (map fst (filter (fun r => negb (snd r)) {lst})).")
         bodies.append("\n".join(lines))
         labels.append([c[0] for c in chunk])
     failing = {}
     uncovered = 0
+    unordered = []
     if not bodies:
-        return failing, uncovered
+        return failing, uncovered, unordered
     outs = ctx.coq_eval_shards(REQ, bodies, par=8)
     for (ok, vals, raw), labs in zip(outs, labels):
-        if not ok or len(vals) < 2:
+        if not ok or len(vals) < 3:
             ctx.tie_broken("correspondence", "apply:model-evaluation", raw[-1500:])
-            return None, 0
+            return None, 0, []
+        unordered += [labs[i] for i in common.parse_nat_list(vals[2])]
         for m in re.finditer(r"\((\d+),\s*\(?(\d+),\s*(\d+),\s*(\d+)\)?\)", re.sub(r"%\w+", "", vals[0])):
             failing[labs[int(m.group(1))]] = (int(m.group(2)), int(m.group(3)))
         uncovered += int(re.sub(r"%\w+", "", vals[1]).strip())
-    return failing, uncovered
+    return failing, uncovered, unordered
 
 
 def coq_wf(ctx, terms, shard=120):
@@ -650,6 +749,10 @@ RULE_SETS = [
     # keeping and as_function; two output nodes sharing a producer; a replacement in a domain the host does not import
     ["dag_a"], ["dag_b"], ["dag_a_fn"], ["dag_b_fn"], ["dag_a_keep"], ["dag3"], ["dag3_fn"], ["dag3_r_fn"],
     ["two_out"], ["two_out_fn"], ["silu_ms"], ["dag_a_fn", "swap_add"], ["silu_ms", "single"],
+    # replacements creating initializers in every way the public API allows (named / unnamed tensor, with / without name=,
+    # the tensor object of a matched constant that other nodes still use), removing and keeping; two output nodes in the
+    # other order, keeping
+    ["init_named"], ["init_both"], ["init_copy"], ["init_copy_keep"], ["init_copy", "swap_add"], ["two_out_r"], ["two_out_keep"], ["two_out_x"],
 ]
 
 
@@ -686,6 +789,17 @@ def replay(doc):
     if r.get("stream") == "generated" and "host_seed" in r:
         rng, rule_set, host = generated_host(r["host_seed"], r["host_index"])
         res, model = eval_host(None, f"gen{r['host_index']}", host, rule_set, rng)
+        import onnx
+        print(onnx.printer.to_text(model))
+        if res.new is not None:
+            print("---- rewritten ----")
+            print(onnx.printer.to_text(res.new))
+        for key, what in res.violations:
+            print("REPRODUCED", key, "--", what[:600])
+        return 1 if res.violations else 0
+    if r.get("stream") == "container":
+        rng, host = container_case(r["family"], r["where"], r["mode"], r["variant"], r["host_seed"])
+        res, model = eval_host(None, "cont", host, [r["family"]], rng, stream="container")
         import onnx
         print(onnx.printer.to_text(model))
         if res.new is not None:
@@ -1043,6 +1157,84 @@ def stream_targeted(ctx, fixed_cases=None, fixed_wf=None):
     ctx.case(("targeted", "empty-rule-list"))
 
 
+def container_case(fam, where, mode, variant, host_seed):
+    import random
+    rng = random.Random(host_seed)
+    host = G.container_host(fam, where, rng, tuple(mode), shared_const=variant in ("shared", "twice-shared"),
+                            twice=variant in ("twice", "twice-shared"))
+    return rng, host
+
+
+def container_plan(ctx):
+    """(family, container, ordering mode, variant) for every family: the instance ONLY in that container."""
+    quick = ctx.tier == "quick"
+    plan = []
+    for fam in sorted(G.FAMILIES):
+        spec = G.FAMILIES[fam]
+        multi = bool(spec.get("roots")) or fam in G._DAG or spec.get("keep")
+        for where in G.CONTAINERS:
+            if where == "main" and not (spec.get("new_init") or spec.get("roots")):
+                continue                                 # main-graph instances: the generated stream
+            modes = list(G.ORDER_MODES)
+            if quick:
+                # consumers before the remaining instance nodes (both preferences among the instance nodes for patterns
+                # with several nodes), + one random linear extension
+                modes = [("rev", "early"), ("rnd", "rnd")] + ([("fwd", "early")] if multi else [])
+            variants = ["plain"]
+            if spec.get("const_var") is not None or any(t == "c" for t in _tree_kinds(spec["pat"])):
+                variants = ["shared", "twice-shared"] if quick else ["plain", "shared", "twice", "twice-shared"]
+            elif spec.get("new_init") or (not quick):
+                variants = ["plain", "twice"]
+            for mode in modes:
+                for variant in variants:
+                    plan.append((fam, where, mode, variant))
+    return plan
+
+
+def _tree_kinds(t):
+    if t[0] != "op":
+        return [t[0]]
+    r = []
+    for a in t[2]:
+        r += _tree_kinds(a)
+    return r
+
+
+def stream_containers(ctx, cases, wf, meta):
+    """Every rule family with its instance(s) in ONE container only -- a model-local function, an If / Loop body inside a
+    function, an If / Loop body of the main graph -- and consumers placed before / after the match in the node list.  All
+    oracles of eval_host apply per container (checker, verified wf_graphb / imports_ok, before/after execution, replay of the
+    splices through the Gallina model); by construction the instance is removable, so the rule must fire."""
+    stats = collections.Counter()
+    for fam, where, mode, variant in container_plan(ctx):
+        host_seed = ctx.rng.getrandbits(48)
+        rng, host = container_case(fam, where, mode, variant, host_seed)
+        label = f"cont:{fam}:{where.replace('/', '.')}:{mode[0]}-{mode[1]}:{variant}"
+        res, model = eval_host(ctx, label, host, [fam], rng, stream="container")
+        spec = G.FAMILIES[fam]
+        ctx.case(("container", fam, where, mode, variant, min(res.count or 0, 2)))
+        stats["hosts"] += 1
+        stats["fired"] += 1 if res.count else 0
+        stats["where:" + where] += 1
+        replay = {"stream": "container", "family": fam, "where": where, "mode": list(mode), "variant": variant,
+                  "host_seed": host_seed, "model": model.SerializeToString().hex()}
+        meta[label] = ([fam], replay)
+        for key, what in res.violations:
+            ctx.violation(key, f"{label}: {what}", replay)
+        by_design_skipped = spec.get("new_init") and where == "function"      # initializers cannot be added to a function
+        if not res.violations and not res.count and not by_design_skipped:
+            ctx.violation(f"C07:container:no-progress:{fam}:{where}", f"{label}: the only instance(s) of the pattern did not fire", replay)
+        if by_design_skipped and res.count:
+            stats["fired_in_function_with_initializer"] += 1
+        for u in res.unmodelled:
+            ctx.tie_broken("correspondence", "apply:unmodelled", f"{label}: {u}")
+        for s_, d in res.ties:
+            ctx.tie_broken("correspondence", s_, d)
+        cases.extend(res.coq_cases)
+        wf.extend(res.wf_terms)
+    return stats
+
+
 def stream_ir_path(ctx, n):
     """rewrite() on a ModelProto and on an ir.Model give the same model (anchors: rewrite(): proto vs IR)."""
     rng = ctx.rng
@@ -1093,9 +1285,10 @@ def run(ctx):
     cases += c2
     wf += w2
     stream_targeted(ctx, cases, wf)
+    st3 = stream_containers(ctx, cases, wf, meta)
     ir_diffs = stream_ir_path(ctx, 20 if quick else 120)
 
-    failing, uncovered = coq_replay(ctx, cases)
+    failing, uncovered, unordered = coq_replay(ctx, cases)
     if failing is not None:
         CODE = {1: "path leads nowhere", 2: "side conditions of the soundness theorem fail for a removing application (side_okb)", 3: "ill-formed application",
                 4: "replay through the model differs from the graph the implementation produced"}
@@ -1111,6 +1304,12 @@ def run(ctx):
                        uncovered == 0, f"{uncovered} outside")
         if uncovered:
             ctx.tie_broken("correspondence", "apply:keep-side-conditions", f"{uncovered} keeping applications do not satisfy keep_okb")
+        unordered = [u for u in unordered if u.split("/")[0] not in violated and u not in failing]
+        ctx.obligation(f"order: on {len(cases)} replayed sweeps (main graphs and function bodies) the container was topologically ordered, "
+                       "every application satisfies order_okb where it was applied (hypotheses of C07_pass_keeps_order) and the "
+                       "graph the implementation ended with is ordered (topo_graph)", not unordered, "; ".join(unordered[:5]))
+        for u in unordered[:5]:
+            ctx.tie_broken("correspondence", "apply:order-conditions", f"{u}: check_order / topo_graph false")
     bad_wf, bad_imp = coq_wf(ctx, wf)
     if bad_wf is not None:
         for label in bad_wf:
@@ -1132,6 +1331,8 @@ def run(ctx):
               hosts_with_nesting=stats["nested_hosts"], fire_count_histogram={str(k): v for k, v in sorted(hist.items())},
               host_tags={k[4:]: v for k, v in sorted(stats.items()) if k.startswith("tag:")},
               small_hosts=st2["hosts"], small_hosts_fired=st2["fired_hosts"], rule_sets=len(RULE_SETS),
+              container_hosts=st3["hosts"], container_hosts_fired=st3["fired"],
+              container_hosts_by_container={k[6:]: v for k, v in sorted(st3.items()) if k.startswith("where:")},
               wf_checked=len(wf), splices_of_patterns_with_several_output_nodes_outside_model=stats["splices_outside_model"], keeping_applications_outside_proved_side_conditions=uncovered, proto_vs_ir_serialisation_diffs=ir_diffs,
               rule="generated rules (pattern tree, transform in reemit/swap/double-transpose/x*1/x+0/Split/keep/as_function) x random hosts "
                    "(planted + chance instances, interleaved, overlapping, extra consumers, graph outputs, If/Loop/functions) + all small hosts")
